@@ -16,15 +16,21 @@ def main():
     ap.add_argument("--tier", default=os.environ.get("VERIF_TIER", "quick"))
     args = ap.parse_args()
     seed = int(os.environ.get("VERIF_SEED", "1") or "1")
+    import engine_props
+    import engine_check
     if args.prop == "replay":
         # replay files start with "# property=Cxx"
         first = open(args.path).readline()
         prop = first.split("property=")[1].split()[0]
+        if prop in engine_props.PROPS:
+            sys.exit(engine_check.replay(args.path, prop, engine_props.PROPS[prop]))
         mod = importlib.import_module("p_" + prop.lower())
         sys.exit(mod.replay(args.path))
     prop = args.prop.upper()
-    mod = importlib.import_module("p_" + prop.lower())
     chk = common.Check(prop, args.tier, seed)
+    if prop in engine_props.PROPS:
+        sys.exit(engine_check.run(chk, engine_props.PROPS[prop]))
+    mod = importlib.import_module("p_" + prop.lower())
     sys.exit(mod.run(chk))
 
 
